@@ -325,7 +325,7 @@ def build():
             reg, FILES[k], k, "<class>", "class",
             [("node", "ref"), ("filter_", "optfn"), ("stop", "optfn"), ("maxlevel", "optint")], lambda c: [], [
                 Outcome("return", "return", lambda c, S1, r: [], res="gen", mods=(),
-                        value=(lambda kk: lambda c: iterseq(kk, c.node, *eff(c.args)))(k))],
+                        value=(lambda kk: lambda c: iterseq(kk, c.node, *eff(c.args)))(k), tag={"cls": k})],
             props=P56, defaults={"filter_": none_v(), "stop": none_v(), "maxlevel": none_v()})
 
     # ------------------------------------------------------------------ ZigZagGroupIter._iter
